@@ -173,3 +173,13 @@ Inductive go_denotes : bytes -> Z -> Prop :=
 | gd_int : forall t z, go_int t z -> go_denotes t z
 | gd_float : forall f q, fnum_wf f = true -> float_only f = true ->
     sci2_is (f_mant f) (f_e10 f) (f_e2 f) q -> go_denotes (fnum_text f) q.
+
+(* The library limits on a floating-point text (same sources as part A; for a JSON number they coincide
+   with [big_limits_json]): written exponent in int64 and - unless the mantissa is zero - the binary
+   exponent of the leading bit in int32 (big.Float), the power of five at most 10^6 and the power of
+   two at most 10^7 in absolute value (Rat.SetString: exp5 = e10, exp2 = e10 + e2). *)
+Definition big_limits_float (f : fnum) : bool :=
+  int64_ok (f_written f) &&
+  ((f_mant f =? 0)%Z ||
+   (float_exp_ok (bitlen (f_mant f) + f_e10 f + f_e2 f) &&
+    (Z.abs (f_e10 f) <=? 1000000)%Z && (Z.abs (f_e10 f + f_e2 f) <=? 10000000)%Z)).
